@@ -423,6 +423,7 @@ func (h *harness) runIncl(th *treeHead, allow bool, sc sctCase) {
 	args := fmt.Sprintf("%s|%s|%s|%s|%s", th.tid, b01(allow), sc.label, ovrString(sc.ovr), canonSCT(sc.sct, sc.si))
 	h.emit("incl|%s|=>|%s", args, res)
 	h.emit("mon_incl|%s|%s|%s|%x|=>|%s", th.tid, sc.label, ovrString(sc.ovr), sc.sct, h.tag(sc.ovr, mon))
+	h.runInclAlt(th, allow, sc)
 	h.stats["incl"]++
 	h.stats["incl_"+strings.SplitN(res, ":", 3)[0]+"_"+strings.SplitN(strings.SplitN(res+":", ":", 3)[1], "(", 2)[0]]++
 }
